@@ -110,6 +110,7 @@ theorem nextAt_rest_cut (d : ByteArray) (fuel : Nat) :
         rw [ih (d.extract (BS - H) d.size) _ (block+1) (k - BS) r hsz
           (by simp [ByteArray.size_extract]; omega) (by simp [ByteArray.size_extract]; omega)
           (by omega) (by omega)]
+        rfl
 
 /-- every strict prefix of the chunks of one record (first chunk at (block, off)) reads as end of
     file -/
@@ -152,6 +153,7 @@ theorem nextAt_rec_cut (d pre : ByteArray) (block off k rf : Nat)
       rw [nextAt_rest_cut C (d.extract (BS - off - H) d.size) d.size _ (block+1) (k - (BS - off)) r hsz
         (by simp [ByteArray.size_extract]; omega) (by simp [ByteArray.size_extract])
         (by omega) (by omega)]
+      rfl
 
 /-! ## the writer's bytes for one record, cut short -/
 
